@@ -471,6 +471,60 @@ def run(ctx, report):
     from .c19 import disp_outside_rule
     disp_outside_rule(ctx, R6)
 
+    # ---------------------------------------------------------------- D7 instructions with several immediates take them in the order the decoder emits them
+    R7 = report.rule('C02.D7', 'rows with more than one immediate operand: every immediate branch of asm_candidates consumes the operands in decoder order', floor=4)
+    IMM_KINDS = [E[k] for k in ('imm', 'ims', 'u08', 's08', 'u16', 's16', 'u32', 's32')]
+    multi = [r for r in X.rows if r.afs == E['noafs'] and len([d for d in r.rm if d in IMM_KINDS]) > 1]
+    if len(multi) < 3:
+        raise AnalysisError('expected the far jmp / far call / enter rows (several immediates), found %d' % len(multi))
+    ac = arch.method('x86_mn', 'asm_candidates')
+    dib_loops = [n for n in ast.walk(ac) if isinstance(n, ast.For) and u(n.iter) == 'dibs']
+    if len(dib_loops) != 1:
+        raise AnalysisError('asm_candidates: the loop over dibs was not found')
+    branches = []
+    cur = [st for st in dib_loops[0].body if isinstance(st, ast.If)][0] if dib_loops[0].body else None
+    while isinstance(cur, ast.If):
+        t = cur.test
+        if isinstance(t, ast.Compare) and u(t.left) == 'dib' and isinstance(t.ops[0], (ast.In, ast.Eq)):
+            try:
+                kinds = Evaluator(dict(E)).ev(t.comparators[0])
+            except NotConst:
+                kinds = None
+            kinds = kinds if isinstance(kinds, list) else [kinds]
+            if any(k in IMM_KINDS for k in kinds if k is not None):
+                branches.append((kinds, cur))
+        cur = cur.orelse[0] if len(cur.orelse) == 1 else None
+    if len(branches) < 2:
+        raise AnalysisError('asm_candidates: the immediate branches of the dib dispatch were not found')
+    for row in multi:
+        for kinds, br in branches:
+            for pos, d in enumerate(row.rm):
+                if d not in kinds:
+                    continue
+                # the statements of the branch that choose the operand index
+                idx_stmts = [st for st in br.body if (isinstance(st, ast.Assign) and u(st.targets[0]) == 'index_im') or
+                             (isinstance(st, ast.If) and any(isinstance(x, ast.Assign) and u(x.targets[0]) == 'index_im' for x in ast.walk(st)))]
+                inst = 'row %s %s: dib %s' % (row.name, row.opc, d)
+                if not idx_stmts:
+                    uses_last = any(isinstance(x, ast.Call) and u(x.func) == 'args_sample.pop' and not x.args for x in ast.walk(br)) or \
+                        any(isinstance(x, ast.Subscript) and u(x.value) == 'args_sample' and u(x.slice) == '-1' for x in ast.walk(br))
+                    idx = -1 if uses_last else None
+                else:
+                    scope = dict(E)
+                    scope.update({'afs': row.afs, 'dibs': list(row.rm), 'dib': d, 'name': row.name, 'args_sample': [{}, {}]})
+                    ev_ = Evaluator(scope)
+                    try:
+                        ev_.exec_stmts(idx_stmts, scope)
+                    except NotConst as e:
+                        raise AnalysisError('asm_candidates: operand index of the %s branch not evaluable: %s' % (kinds, e))
+                    idx = scope.get('index_im')
+                if idx == 0:
+                    R7.ok(inst, sample='%s: operand 0 (operands are consumed in decoder order)' % inst)
+                else:
+                    R7.violation(inst, 'imm-order:%s:%s' % (row.name, d), '%s has the immediates %s, which the decoder emits in that order; the assembler takes operand %s for %s: '
+                                 'the operands are encoded exchanged' % (row.name, [x for x in row.rm if x in IMM_KINDS], idx, d), where(arch, br),
+                                 witness="asm('jmpf 2, 1') == ea 01 00 00 00 02 00 while dis(ea 02 00 00 00 01 00) prints 'jmpf 2, 1'")
+
 
 def imm_accumulate_rule(R4, att, pa):
     """Grammar actions that combine two sub-results which can both carry a number (imm) must add the numbers."""
@@ -564,6 +618,7 @@ def _conds(node, fn):
 
 
 MUTANTS = [
+    ('far-imm-last-operand', 'miasmx/arch/ia32_arch.py', "                            [imm, ims, u08, s08, u16, s16, u32, s32]]) > 1:\n                        index_im = 0\n", "                            [imm, ims, u08, s08, u16, s16, u32, s32]]) > 1:\n                        index_im = -1\n", 'C02.D7'),
     ('drop-check', 'miasmx/arch/ia32_arch.py',
      "                    v = check_imm_size(args_sample[index_im][x86_afs.imm], size)\n                    if v is None:\n                        log.debug(\"cannot encode this val in size %s %x!\", size, args_sample[index_im][x86_afs.imm])\n                        good_c= False\n                        break\n",
      "                    v = args_sample[index_im][x86_afs.imm]\n", 'C02.D1'),
